@@ -824,3 +824,27 @@ Proof.
   - apply countTrue_map_minus.
   - rewrite countTrue_map_not, seq_length. reflexivity.
 Qed.
+
+(* ------------------------------------------------------------------ bitvEqual is observational *)
+Lemma bits_eq_test : forall c a b, bits c a = bits c b ->
+  forall i, (i < nbits c)%nat -> bitvTest c a i = bitvTest c b i.
+Proof.
+  intros c a b H i Hi. unfold bits in H.
+  assert (E : forall v, nth i (map (bitvTest c v) (seq 0 (nbits c))) (bitvTest c v 0) = bitvTest c v i).
+  { intros v. rewrite map_nth, seq_nth by exact Hi. reflexivity. }
+  rewrite <- (E a), <- (E b), H.
+  apply nth_indep. rewrite map_length, seq_length. exact Hi.
+Qed.
+
+Lemma equal_observational : forall c a b, wfc c -> wfv c a -> wfv c b -> bitvEqual c a b = true ->
+  (bitvCount c a = bitvCount c b)%nat /\ (bitvToString c a = bitvToString c b :> list pch) /\
+  (forall n, (n <= nbits c)%nat -> bitvCountTo c a n = bitvCountTo c b n) /\
+  (forall i, (i < nbits c)%nat -> bitvTest c a i = bitvTest c b i).
+Proof.
+  intros c a b Hc Ha Hb E. apply (equal_spec c a b Hc Ha Hb) in E.
+  repeat split.
+  - rewrite !count_spec, E. reflexivity.
+  - apply toString_inj. exact E.
+  - intros n Hn. rewrite !countTo_spec by exact Hn. rewrite E. reflexivity.
+  - apply bits_eq_test. exact E.
+Qed.
